@@ -1460,44 +1460,30 @@ fn c12_count_overflow_rolls_back() {
 }
 
 // --------------------------------------------------------------------------
-// TSIG (TsigMode::Unsigned only: the signing modes reach HMAC-SHA code that
-// Kani cannot translate - inline assembly)
+// TSIG reservation (TsigMode::Unsigned only: the signing modes reach HMAC-SHA
+// code that Kani cannot translate - inline assembly)
 // --------------------------------------------------------------------------
 
-// Stubs S9a-c: the three signing entry points are replaced by functions that
-// fail the harness if they are ever called.  With TsigMode::Unsigned they are
-// never called; the stubs only stop CBMC from translating the HMAC code
-// behind the (to CBMC, non-constant) `match &tsig.mode` in finish_with_mac.
-fn sign3_never(_rr: &PreparedTsigRr, _message: &[u8], _algorithm: Algorithm, _key: &[u8]) -> (Box<Rdata>, Box<[u8]>) {
-    assert!(false, "[C12] an unsigned TSIG message is never signed");
-    loop {}
-}
+// What is NOT covered: finish() of a TSIG message.  finish_with_mac moves the
+// TSIG state out of the writer with Option::take (a memcpy), after which all
+// of its fields - name lengths and the mode discriminant included - are
+// symbolic to CBMC.  Measured with the signing entry points stubbed out
+// (assert(false) models): with compression enabled the run was still in
+// symbolic execution after 100 min; with compression disabled symbolic
+// execution took 81 s and CBMC's propositional reduction then ran out of
+// memory at 24 GB.  The harness below covers the reservation logic only.
 
-fn sign4_never(_rr: &PreparedTsigRr, _message: &[u8], _mac: &[u8], _algorithm: Algorithm, _key: &[u8]) -> (Box<Rdata>, Box<[u8]>) {
-    assert!(false, "[C12] an unsigned TSIG message is never signed");
-    loop {}
-}
-
-// @harness props=C12,C13 tier=thorough mem=6 t=3000 kani="--no-assertion-reach-checks" fn="Writer::set_tsig,Writer::update_time_signed,Writer::add_question,Writer::add_answer_rr,Writer::set_limit,Writer::finish,Writer::finish_with_mac,PreparedTsigRr::unsigned_len,PreparedTsigRr::unsigned,Rdata::new_tsig"
-//   bound="buffer 64, compression Disabled; set_tsig(Unsigned, key k., algorithm h., any time/fudge/original id/error != BADTIME) ; question x. ; set_limit(0) and back to 64 ; a 15-octet record that does not fit beside the 32-octet TSIG reservation ; update_time_signed(any) ; finish; unwind 8"
-//   sym="case bit, 2x6 time octets, fudge, original id, error, qtype, qclass, probe<64" stubs="S8,S9(sign_request/sign_response/sign_subsequent replaced by assert(false): never called in Unsigned mode)"
+// @harness props=C12 tier=quick mem=4 t=1200 kani="--no-assertion-reach-checks" fn="Writer::set_tsig,Writer::update_time_signed,Writer::add_question,Writer::add_answer_rr,Writer::set_limit,Writer::clear_rrs,PreparedTsigRr::unsigned_len"
+//   bound="buffer 64; set_tsig(Unsigned, key k., algorithm h., any time/fudge/original id/error != BADTIME) ; second set_tsig refused ; question x. ; set_limit(0) and back to 64 ; a 15-octet record that does not fit beside the 32-octet reservation ; update_time_signed(any) ; clear_rrs ; NO finish (see comment above); unwind 8"
+//   sym="case bit, 2x6 time octets, fudge, original id, error, qtype, qclass, probe<64" stubs="S8"
 #[kani::proof]
 #[kani::unwind(8)]
 #[kani::stub(Writer::write, write_model)]
-#[kani::stub(PreparedTsigRr::sign_request, sign3_never)]
-#[kani::stub(PreparedTsigRr::sign_response, sign4_never)]
-#[kani::stub(PreparedTsigRr::sign_subsequent, sign4_never)]
-fn c12_tsig_unsigned() {
+fn c12_tsig_reservation() {
     let mut buf = [0u8; 64];
     let probe: usize = kani::any();
     kani::assume(probe < 64);
     let mut w = Writer::new(&mut buf, 64).unwrap();
-    // Compression disabled: finish_with_mac moves the TSIG state out with
-    // Option::take (a memcpy), after which every field of it - name lengths
-    // included - is symbolic to CBMC; letting the key name go through the
-    // compressor's scan on top of that did not leave symbolic execution in
-    // 100 minutes.
-    w.set_compression_mode(CompressionMode::Disabled);
     let key: Box<LowercaseName> = name_view(&[2, 0, 2, 1, b'k', 0]).to_owned().into();
     let alg: Box<LowercaseName> = name_view(&[2, 0, 2, 1, b'h', 0]).to_owned().into();
     let t1: [u8; 6] = kani::any();
@@ -1514,7 +1500,7 @@ fn c12_tsig_unsigned() {
     };
     assert!(w.update_time_signed(TimeSigned::from(t2)) == Err(Error::NotTsig), "[C12] update_time_signed without TSIG refused");
     assert!(w.set_tsig(TsigMode::Unsigned { algorithm: alg }, rr).is_ok(), "[C12] TSIG reservation fits");
-    assert!(w.arcount == 1 && w.available == 64 - 32 && w.cursor == 12, "[C12] 32 octets reserved for the unsigned TSIG record");
+    assert!(w.arcount == 1 && w.available == 64 - 32 && w.cursor == 12, "[C12] key name + algorithm name + 26 = 32 octets reserved for the unsigned TSIG record");
     let qn = [2, 0, 2, 1, any_case(b'a'), 0];
     let (qt, qc): (u16, u16) = (kani::any(), kani::any());
     let q = Question {
@@ -1540,27 +1526,12 @@ fn c12_tsig_unsigned() {
     };
     assert!(!add_rec(&mut w, &r, Hint::None, true, probe), "[C12] record that would eat the TSIG reservation is refused");
     assert!(w.update_time_signed(TimeSigned::from(t2)).is_ok(), "[C12] update_time_signed accepted");
-    let limit = w.limit;
-    let n = w.finish();
-    assert!(n == 51 && n <= limit, "[C12] header + question + 32-octet TSIG record, within the limit");
-    let m = ref_decode_lim(&buf, n, [1, 0, 0, 1], 8);
-    assert!(m.wellformed, "[C12] finished TSIG message decodes");
-    assert!(m.counts[0] == 1 && m.counts[1] == 0 && m.counts[2] == 0 && m.counts[3] == 1, "[C12] counts");
-    assert!(m.n_tsig == 1 && m.tsig_placement_ok && m.n_opt == 0 && m.n_recs == 1, "[C12] exactly one TSIG, last in the additional section");
-    assert!(m.pointers_ok && !m.forbidden_pointer, "[C13] pointers valid");
-    let t = &m.recs[0];
-    assert!(t.rtype == T_TSIG && t.class == 255 && t.ttl == 0, "[C12] TSIG class ANY, TTL 0");
-    check_name(&buf, n, t.owner_at, &[1, b'k', 0], true);
-    // RFC 8945 section 4.2
-    let want = [
-        1, b'h', 0, t2[0], t2[1], t2[2], t2[3], t2[4], t2[5], (fudge >> 8) as u8, fudge as u8, 0, 0, (oid >> 8) as u8, oid as u8, (err >> 8) as u8, err as u8, 0, 0,
-    ];
-    assert!(t.rdlen == 19, "[C12] unsigned TSIG RDATA length");
-    let i: usize = kani::any();
-    kani::assume(i < 19);
-    assert!(buf[t.rd_at + i] == want[i], "[C12] TSIG RDATA: algorithm, updated time, fudge, empty MAC, original ID, error, no other data");
-    kani::cover!(n == 51, "TSIG record written");
+    w.clear_rrs();
+    assert!(w.arcount == 1 && w.cursor == 19 && w.available == 32, "[C12] clear_rrs keeps the question and the reserved TSIG");
+    assert_invariant(&w, 64);
+    kani::cover!(w.limit == 64, "TSIG reservation exercised");
     core::mem::forget(q);
+    core::mem::forget(w);
 }
 
 // --------------------------------------------------------------------------
@@ -1838,4 +1809,96 @@ fn c13_scan_converging_shorter_standard() {
 fn c13_scan_converging_longer_standard() {
     let o = scan_b::<M_STD, 2>();
     kani::cover!(o.pointers == 4 && o.n == 37 + 4 + 14, "compressee keeps z and points to the NS name");
+}
+
+// --------------------------------------------------------------------------
+// hints that refer to a name inside RDATA
+// --------------------------------------------------------------------------
+
+/// Program F: QNAME x. ; answer NS (owner x. Hint::Qname) with RDATA name y.,
+/// its HintPointer collected in a HintPointerVec ; additional A whose owner
+/// is that NS name (own case bit), hinted either explicitly from the vector
+/// (H = 0) or with Hint::MostRecentNameInRdata (H = 1).
+fn prog_rdata_hints<const M: u8, const H: u8>() -> Out {
+    let mut buf = [0u8; 64];
+    let probe: usize = kani::any();
+    kani::assume(probe < 64);
+    let mut w = Writer::new(&mut buf, 64).unwrap();
+    w.set_compression_mode(mode_of(M));
+    let qn = [2, 0, 2, 1, any_case(b'a'), 0];
+    let (qt, qc): (u16, u16) = (kani::any(), kani::any());
+    let q = Question {
+        qname: name_view(&qn).to_owned(),
+        qtype: qt.into(),
+        qclass: qc.into(),
+    };
+    let mut e = new_expect(M);
+    assert!(add_q(&mut w, &q, probe), "[C12] question fits");
+    e.q = Some((&qn, qt, qc));
+    let on1 = [2, 0, 2, 1, any_case(b'a'), 0];
+    let rd1 = [1, any_case(b'b'), 0];
+    let r1 = Rec {
+        sec: 1,
+        owner: &on1,
+        rtype: T_NS,
+        class: 1,
+        ttl: kani::any(),
+        rdata: &rd1,
+        name_at: 0,
+        name_len: 3,
+    };
+    let mut hpv = HintPointerVec::new();
+    {
+        let s = snap(&w, probe);
+        let rdata: &Rdata = (&rd1).try_into().unwrap();
+        let res = w.add_answer_rr(HintedName::new(Hint::Qname, name_view(&on1)), Type::NS, Class::IN, Ttl::from(r1.ttl), rdata, Some(&mut hpv));
+        assert!(judge(&w, &s, res, 3 + 10 + 3, true, 1, 1), "[C12] NS record fits");
+    }
+    e.recs[0] = r1;
+    e.n = 1;
+    assert!(hpv.get(0).is_some() && hpv.get(1).is_none(), "[C13] one hint pointer recorded for the one RDATA name");
+    let hp = hpv.get(0).unwrap().get() as usize;
+    assert!(hp >= 19 + 2 + 10 && hp < w.cursor, "[C13] the recorded hint pointer lies inside the NS record's RDATA");
+    w.set_limit(kani::any());
+    let on2 = [2, 0, 2, 1, any_case(b'b'), 0];
+    let rd2: [u8; 4] = kani::any();
+    let r2 = Rec {
+        sec: 3,
+        owner: &on2,
+        rtype: T_A,
+        class: 1,
+        ttl: kani::any(),
+        rdata: &rd2,
+        name_at: 4,
+        name_len: 0,
+    };
+    let hint = if H == 0 {
+        HintedName::from_hint_pointer_vec(&hpv, 0, name_view(&on2)).hint()
+    } else {
+        Hint::MostRecentNameInRdata
+    };
+    last_then_done!(w, buf, e, q, add_rec(&mut w, &r2, hint, true, probe), r2)
+}
+
+// @harness props=C12,C13 tier=thorough quick=C13 mem=4 t=1500 kani="--no-assertion-reach-checks" fn="Writer::add_answer_rr,Writer::add_additional_rr,Writer::add_rr,Writer::write_hinted_name,HintPointerVec::push,HintPointerVec::get,HintedName::from_hint_pointer_vec,Writer::finish"
+//   bound="buffer 64, Standard mode; question x. ; add_answer_rr(x. Hint::Qname, NS y., Some(HintPointerVec)) ; set_limit(any) ; add_additional_rr(y. with Hint::Explicit taken from the vector, A) ; finish; unwind 8"
+//   sym="4 case bits, qtype, qclass, limit:usize, 2 ttl, 4 RDATA octets, probe<64" stubs="S8"
+#[kani::proof]
+#[kani::unwind(8)]
+#[kani::stub(Writer::write, write_model)]
+fn c13_prog_explicit_hint_standard() {
+    let o = prog_rdata_hints::<M_STD, 0>();
+    kani::cover!(!o.truncated && o.pointers == 2, "owner compressed through the explicit hint pointer");
+    kani::cover!(o.truncated, "hinted record truncated and rolled back");
+}
+
+// @harness props=C12,C13 tier=thorough mem=4 t=1500 kani="--no-assertion-reach-checks" fn="Writer::add_answer_rr,Writer::add_additional_rr,Writer::add_rr,Writer::write_hinted_name,Writer::finish"
+//   bound="as c13_prog_explicit_hint_standard with Hint::MostRecentNameInRdata; unwind 8"
+//   sym="4 case bits, qtype, qclass, limit:usize, 2 ttl, 4 RDATA octets, probe<64" stubs="S8"
+#[kani::proof]
+#[kani::unwind(8)]
+#[kani::stub(Writer::write, write_model)]
+fn c13_prog_rdata_name_hint_standard() {
+    let o = prog_rdata_hints::<M_STD, 1>();
+    kani::cover!(!o.truncated && o.pointers == 2, "owner compressed through the most-recent-RDATA-name hint");
 }
